@@ -189,6 +189,51 @@ def derived_cases(tier, seed):
     return out
 
 
+# ------------------------------------------------------------------ the same site / gain table read again with other acquisition parameters
+def dseq_cases(tier, seed):
+    return [(kind, stream, nsaved) for kind in ("3A", "3B1", "3B2", "NP2.1", "NP2.4", "NPultra") for stream in ("ap", "lf") for nsaved in (5, 385)]
+
+
+def dseq_check(case):
+    """several metadata in ONE process that share their IMRO / site tables and differ in full-scale range, max integer, rate or duration: each is read for itself"""
+    kind, stream, nsaved = case
+    d = synth.proc_scratch()
+    k = nsaved - 1
+    fam = synth.family(kind)
+    if fam == "NP1":
+        sites = [(0, i // 2, (2, 0)[i % 2] if (i // 2) % 2 == 0 else (3, 1)[i % 2]) for i in range(k)]
+    elif fam == "NP2":
+        sites = [((i // 48) % 4 if kind.startswith("NP2.4") else 0, i // 2, i % 2) for i in range(k)]
+    else:
+        sites = [(0, i // 8, i % 8) for i in range(k)]
+    gains = [(synth.GAINS[(j + 1) % 8], synth.GAINS[(j + 5) % 8]) for j in range(k)]
+    v = []
+    ntr = 0
+    ranges = [r for r in RANGES if not (fam == "NP2" and r[1] is None)]
+    seq = [(r, FSS[i % 2] if stream == "ap" else FSS[2 + i % 2], NSS[i % len(NSS)]) for i, r in enumerate(ranges + ranges[::-1] + ranges[1::2])]
+    for (vr, mi), fs, ns in seq:
+        items = synth.meta_items(kind, sites, ns, stream=stream, fs=fs, gains=gains, vrange=vr, maxint=mi)
+        fmeta = os.path.join(d, "seq_g0_t0.imec0.%s.meta" % stream)
+        with open(fmeta, "w") as f:
+            f.write(synth.meta_text(items))
+        try:
+            sr = spikeglx.Reader(fmeta, sort=False)
+            ntr += 1
+            ref = np.array(synth.ref_s2v(kind, stream, k, 1, gains=gains, vrange=vr, maxint=mi))
+            s2v = np.asarray(sr.sample2volts, dtype=float)
+            if s2v.shape != ref.shape or not np.allclose(s2v, ref, rtol=1e-6, atol=0):
+                v.append(("s2v:call-sequence", "%s %s nsaved=%d range=%r maxint=%r read after other metadata with the same gain table: volts/bit %r != range/maxint/gain %r"
+                          % (kind, stream, nsaved, vr, mi, s2v[:3].tolist(), ref[:3].tolist())))
+                break
+            if abs(float(sr.fs) - fs) > 1e-9 or sr.ns != ns:
+                v.append(("fs-ns:call-sequence", "%s %s: fs=%r ns=%r read after other metadata, the file says %r / %r" % (kind, stream, sr.fs, sr.ns, fs, ns)))
+                break
+        except Exception as e:
+            v.append(("derived-sequence:exc:%s" % type(e).__name__, "%s %s range=%r maxint=%r: %s: %s" % (kind, stream, vr, mi, type(e).__name__, e)))
+            break
+    return Res(v, o=(kind, stream), tr=ntr)
+
+
 FSS = [30000, 29999.757983, 2500, 2499.98, 30003.0003]
 RANGES = [(None, None), (0.5, 8192), (0.62, 2048), (0.6, 512), (0.62, 8192)]
 NSS = [1, 1000, 12345678, 108000123]
@@ -375,6 +420,8 @@ CHECK = {
         Clause("scalars", "decimal scalars mant x 10^e written positionally", cases=scalar_cases, check=scalar_check),
         Clause("intlists", "integer lists with elements from 0 to 2^53", cases=intlist_cases, check=intlist_check),
         Clause("derived", "derived quantities for every kind/stream/gain pair/count", cases=derived_cases, check=derived_check),
+        Clause("derived-sequences", "metadata sharing their gain / site tables and differing in range, max integer, rate, duration, read one after the other in one process",
+               cases=dseq_cases, check=dseq_check),
         Clause("used", "parse, derive through the Reader, write, parse", cases=used_cases, check=used_check),
         Clause("fixtures", "shipped .meta files round-trip", cases=fixture_cases, check=fixture_check),
     ],
